@@ -128,7 +128,9 @@ def extract(g, spec, lenient=False):
                 cl[cp[len(path):]] = {'calls': sorted(cc), 'errs': sorted(ce), 'ctl': CT.ctl_fingerprint(cf, summ),
                                       'flow': CT.flow_fingerprint(cf, summ)}
             if cl:
-                out[path]['closures'] = cl
+                # closure numbers follow source order: reordering two independent statements renumbers them, so the rows are
+                # kept as an order-free list
+                out[path]['closures'] = sorted((json.dumps(v, sort_keys=True) for v in cl.values()))
         return out
     ef = E.Eff(g, extra_atoms=spec.get('extra_atoms'))
     if kind == 'fneff':
